@@ -420,6 +420,7 @@ class ValueGen:
             k = s.kind(f.type)
             recursive = k in ('table', 'tabvec', 'union', 'uvec') or f.nested
             p = 0.75 if not recursive else (0.6 if depth < self.maxdepth else 0.0)
+            if getattr(self, 'full', False) and (not recursive or depth < self.maxdepth): p = 1.0
             if f.required: p = 1.0
             if r.random() < p:
                 if k == 'table' and depth >= self.maxdepth and f.required: pass
@@ -721,7 +722,7 @@ class ScriptGen:
     def table_gen(self, n):
         """the table through the GENERATED api: <T>_start, <T>_<f>_add / _force_add (default elision), <T>_end"""
         s, rng = self.s, self.rng
-        if rng.random() < 0.35:
+        if rng.random() < getattr(self, 'create_bias', 0.35):
             r = self.table_create(n)
             if r is not None: return r
         t = s.table_index[n.a]
